@@ -229,6 +229,7 @@ pub fn c16_families(tier: Tier) -> Vec<Family> {
     let alpha_evict = [T::Get, T::Set, T::SetBig, T::AppendBig, T::Del, T::Incr, T::Flush, T::SetOther, T::GetOther];
     let mut o = opts(if tier == Tier::Quick { 2 } else { 3 }, tier);
     o.check_lin = false;
+    o.max_execs = if tier == Tier::Quick { 400_000 } else { 3_000_000 };
     for (pname, policy, alpha) in [
         ("none", Policy::None, &alpha_plain[..]),
         ("random-tight", Policy::Random(60), &alpha_evict[..]),
@@ -264,7 +265,9 @@ pub fn c16_families(tier: Tier) -> Vec<Family> {
                     }
                 }
             }
-            fams.push(Family { name: format!("2x1/{}/{}", pname, kname), programs: p2, opts: SchedOpts { max_bound: if tier == Tier::Quick { 3 } else { 64 }, ..o } });
+            // evicting programs branch on every victim: bound them; the plain ones saturate
+            let b2 = if tier == Tier::Quick { 3 } else if policy == Policy::None { 64 } else { 5 };
+            fams.push(Family { name: format!("2x1/{}/{}", pname, kname), programs: p2, opts: SchedOpts { max_bound: b2, ..o } });
             fams.push(Family { name: format!("3x1/{}/{}", pname, kname), programs: p3, opts: o });
             if !p22.is_empty() {
                 fams.push(Family { name: format!("2x2/{}/{}", pname, kname), programs: p22, opts: SchedOpts { max_bound: 2, ..o } });
